@@ -12,8 +12,8 @@
 EXTENDS Naturals, Sequences, FiniteSets, Json, TLC
 
 TraceLog == ndJsonDeserialize("trace.ndjson")
-VARIABLES l, log, sessions, w, tol, cstart
-tvars == <<l, log, sessions, w, tol, cstart>>
+VARIABLES l, log, sessions, w, tol, cstart, mem
+tvars == <<l, log, sessions, w, tol, cstart, mem>>
 ASSUME TLCSet(1, 0)
 Rec == TraceLog[l]
 IsEvent(e) == /\ l <= Len(TraceLog) /\ TraceLog[l].ev = e /\ l' = l + 1
@@ -27,20 +27,34 @@ IsSubSeq(a, b) == \* a is a subsequence of b (ids are unique)
     /\ \A i, j \in 1..Len(a) : i < j =>
           (CHOOSE x \in 1..Len(b) : b[x] = a[i]) < (CHOOSE x \in 1..Len(b) : b[x] = a[j])
 
-TraceInit == l = 1 /\ log = <<>> /\ sessions = <<>> /\ w = 0 /\ tol = 0 /\ cstart = 0
-TReset == /\ IsEvent("reset") /\ log' = <<>> /\ sessions' = <<>> /\ cstart' = 0
+TraceInit == l = 1 /\ log = <<>> /\ sessions = <<>> /\ w = 0 /\ tol = 0 /\ cstart = 0 /\ mem = <<>>
+TReset == /\ IsEvent("reset") /\ log' = <<>> /\ sessions' = <<>> /\ cstart' = 0 /\ mem' = <<>>
           /\ w' = (IF "W" \in DOMAIN Rec THEN Rec.W ELSE 0) /\ tol' = (IF "tol" \in DOMAIN Rec THEN Rec.tol ELSE 0)
 
 TAppend == /\ IsEvent("log.append")
            /\ log' = Append(log, [id |-> Rec.id, T |-> SeqToSet(Rec.T), E |-> SeqToSet(Rec.E), at |-> Rec.at])
-           /\ UNCHANGED <<sessions, w, tol, cstart>>
+           /\ UNCHANGED <<sessions, w, tol, cstart, mem>>
 
 TPersist == /\ IsEvent("session.persist")
             /\ sessions' = [p \in DOMAIN sessions \cup {Rec.pid} |->
                               IF p = Rec.pid THEN [sid |-> Rec.sid, rooms |-> SeqToSet(Rec.rooms), at |-> Rec.at] ELSE sessions[p]]
-            /\ UNCHANGED <<log, w, tol, cstart>>
+            \* on a real server the persisted rooms are exactly the socket's rooms at that moment
+            /\ (Rec.sid \in DOMAIN mem => SeqToSet(Rec.rooms) = mem[Rec.sid])
+            /\ UNCHANGED <<log, w, tol, cstart, mem>>
 
-TCleanStart == IsEvent("clean.start") /\ cstart' = Rec.now /\ UNCHANGED <<log, sessions, w, tol>>
+\* room membership (hooks of the embedded in-memory adapter)
+MemOf(s) == IF s \in DOMAIN mem THEN mem[s] ELSE {}
+TRoomsAdd == /\ IsEvent("rooms.add")
+             /\ mem' = [x \in DOMAIN mem \cup {Rec.sid} |-> IF x = Rec.sid THEN MemOf(Rec.sid) \cup SeqToSet(Rec.rooms) ELSE mem[x]]
+             /\ UNCHANGED <<log, sessions, w, tol, cstart>>
+TRoomsDel == /\ IsEvent("rooms.del")
+             /\ mem' = [x \in DOMAIN mem |-> IF x = Rec.sid THEN mem[x] \ {Rec.room} ELSE mem[x]]
+             /\ UNCHANGED <<log, sessions, w, tol, cstart>>
+TRoomsDelAll == /\ IsEvent("rooms.delall")
+                /\ mem' = [x \in DOMAIN mem \ {Rec.sid} |-> mem[x]]
+                /\ UNCHANGED <<log, sessions, w, tol, cstart>>
+
+TCleanStart == IsEvent("clean.start") /\ cstart' = Rec.now /\ UNCHANGED <<log, sessions, w, tol, mem>>
 
 \* a clean-up pass [cstart, now]: whatever had not expired by the end of the pass must survive,
 \* nothing is invented, the order is kept
@@ -52,7 +66,7 @@ TCleanEnd ==
     /\ \A p \in DOMAIN sessions : (sessions[p].at + w > Rec.now + tol) => p \in SeqToSet(Rec.pids)
     /\ log' = SelectSeq(log, LAMBDA e : e.id \in SeqToSet(Rec.ids))
     /\ sessions' = [p \in SeqToSet(Rec.pids) |-> sessions[p]]
-    /\ UNCHANGED <<w, tol, cstart>>
+    /\ UNCHANGED <<w, tol, cstart, mem>>
 
 IndexOf(id) == IF \E i \in 1..Len(log) : log[i].id = id THEN CHOOSE i \in 1..Len(log) : log[i].id = id ELSE 0
 
@@ -70,7 +84,7 @@ TRestore ==
                                                  LAMBDA e : Match(sessions[Rec.pid].rooms, e.T, e.E)))
          /\ sessions' = IF known /\ ~Rec.ok /\ Rec.why = "expired"
                           THEN [p \in DOMAIN sessions \ {Rec.pid} |-> sessions[p]] ELSE sessions
-    /\ UNCHANGED <<log, w, tol, cstart>>
+    /\ UNCHANGED <<log, w, tol, cstart, mem>>
 
 \* one client session end to end
 E2EOK(r) ==
@@ -82,13 +96,14 @@ E2EOK(r) ==
                       /\ \A i \in 1..(Len(rc) - 1) : \A j \in (i + 1)..Len(rc) : rc[i] # rc[j]    \* nothing twice
                       /\ SeqToSet(r.addressed) \subseteq SeqToSet(rc)                          \* no gap
                       /\ IsSubSeq(r.addressed, rc)                                               \* emission order
+                      /\ (r.strict => SeqToSet(rc) \subseteq SeqToSet(r.addressed))              \* and nothing else
     /\ ~r.recovered => ~r.sameSid
 TE2E == /\ IsEvent("e2e") /\ (IF E2EOK(Rec) THEN TRUE ELSE PrintT(<<"STEP_MISMATCH", l>>))
-        /\ UNCHANGED <<log, sessions, w, tol, cstart>>
+        /\ UNCHANGED <<log, sessions, w, tol, cstart, mem>>
 
-TNote == (IsEvent("note") \/ IsEvent("quiesce")) /\ UNCHANGED <<log, sessions, w, tol, cstart>>
+TNote == (IsEvent("note") \/ IsEvent("quiesce")) /\ UNCHANGED <<log, sessions, w, tol, cstart, mem>>
 
-TraceNext == TReset \/ TAppend \/ TPersist \/ TCleanStart \/ TCleanEnd \/ TRestore \/ TE2E \/ TNote
+TraceNext == TReset \/ TRoomsAdd \/ TRoomsDel \/ TRoomsDelAll \/ TAppend \/ TPersist \/ TCleanStart \/ TCleanEnd \/ TRestore \/ TE2E \/ TNote
 TraceSpec == TraceInit /\ [][TraceNext]_tvars
 HWM == IF l > TLCGet(1) THEN TLCSet(1, l) ELSE TRUE
 TraceAccepted == IF TLCGet(1) = Len(TraceLog) + 1 THEN TRUE
